@@ -21,6 +21,15 @@ class UserNode(NodeMixin):
         self.parent = parent
 
 
+class LightWithDict(LightNodeMixin):
+    """a LightNodeMixin class that does not declare __slots__: attributes live in the instance dict"""
+
+    def __init__(self, label, parent=None):
+        self.label = label
+        self.data = [label]
+        self.parent = parent
+
+
 class UserLight(LightNodeMixin):
     __slots__ = ("label", "data")
 
@@ -39,13 +48,15 @@ def make(kind, i, parent, nodes):
         return UserNode("u%d" % i, parent)
     if kind == "Light":
         return UserLight("l%d" % i, parent)
+    if kind == "LightDict":
+        return LightWithDict("d%d" % i, parent)
     if kind == "Symlink":
         tgt = nodes[0] if nodes else Node("detached-target")
         return SymlinkNode(tgt, parent=parent)
     raise ValueError(kind)
 
 
-MIXES = [["Node"], ["AnyNode", "Node"], ["User", "Symlink", "Node"], ["Node", "Node", "Symlink", "AnyNode"], ["Light"]]
+MIXES = [["Node"], ["AnyNode", "Node"], ["User", "Symlink", "Node"], ["Node", "Node", "Symlink", "AnyNode"], ["Light"], ["LightDict"]]
 
 
 def build(shape, mix):
@@ -63,6 +74,7 @@ def build(shape, mix):
 def attrs(n):
     if isinstance(n, LightNodeMixin):
         d = {s: getattr(n, s) for s in ("label", "data") if hasattr(n, s)}
+        d.update({k: v for k, v in getattr(n, "__dict__", {}).items() if not k.startswith("_LightNodeMixin")})
     else:
         d = {k: v for k, v in n.__dict__.items() if k not in ("_NodeMixin__parent", "_NodeMixin__children", "target")}
     return d
@@ -129,7 +141,13 @@ def run_case(c):
     # independence
     before = [(getattr(x.parent, "name", None), len(x.children)) for x in nodes]
     for b in list(m.values())[1:]:
+        old = b.parent
         b.parent = None
+        if old is not None and any(c_ is b for c_ in old.children):
+            return "a node detached in the copy is still listed among its former parent's children"
+        e = wf(cp.root) or wf(b)
+        if e:
+            return "copy inconsistent after a mutation: " + e
     if [(getattr(x.parent, "name", None), len(x.children)) for x in nodes] != before:
         return "mutating the copy changed the original"
     return None
@@ -141,7 +159,7 @@ def search(spec):
         for n in range(1, spec.get("nodes", 4) + 1):
             for sh in Q.shapes(n):
                 for entry in range(n):
-                    for how in ["deepcopy"] + list(range(2 if "Light" in MIXES[mix] else 0, pickle.HIGHEST_PROTOCOL + 1)):
+                    for how in ["deepcopy"] + list(range(2 if MIXES[mix][0].startswith("Light") else 0, pickle.HIGHEST_PROTOCOL + 1)):
                         case = {"shape": sh, "mix": mix, "entry": entry, "how": how}
                         total += 1
                         bad = run_case(case)
